@@ -4,4 +4,5 @@ HARNESSES = [
     dict(name='timeh', need_lib=True),
     dict(name='tables', need_schema=True),
     dict(name='store', need_schema=True, extra_flags=['-ldl']),
+    dict(name='rot', need_lib=True),
 ]
